@@ -174,6 +174,7 @@ static ZoneSpec gen_zone(Rng* r, int idx, bool allow_bad, bool allow_literal) {
   z.key = std::string(1, static_cast<char>('A' + idx % 26));
   if (idx >= 26) z.key += std::to_string(idx / 26);
   if (r->chance(0.3)) z.key += "/" + std::string(static_cast<size_t>(r->pick(std::vector<int>{1, 7, 15, 16, 31, 64})), static_cast<char>('a' + idx % 26));   // names of different lengths
+  if (r->chance(0.01)) z.key += "/" + std::string(static_cast<size_t>(r->pick(std::vector<int>{255, 256, 300, 1024, 4080, 4097, 5000, 20000})), static_cast<char>('a' + idx % 26));   // ... up to far beyond PATH_MAX
   uint64_t p = r->below(100);
   if (p < 60 || (!allow_bad && !allow_literal)) {
     const auto& names = shipped_names();
